@@ -4,7 +4,8 @@
    behaviour in `unsafe` blocks or allocator behaviour — those are exercised on the real code by the check. *)
 From SJ Require Import Base.Bytes Base.FloatB Gen.Tables Model.Read Model.Str Model.Num Model.Value Model.De Model.Ignore Model.Stream.
 From SJ Require Import Proofs.Total.
-From SJ Require Import Model.Ty Model.DeTyped Proofs.TypedDepth.
+From SJ Require Import Model.Ty Model.DeTyped Model.StreamTyped Proofs.TypedDepth Proofs.TypedTotal Proofs.StrSource.
+From SJ Require Import Base.Utf8.
 
 (* termination: the explicit fuel is never exhausted, for every environment (any reader kind, EOF or failing reader, any cfg) *)
 Theorem C14_total_value : forall E bs, from_input E bs <> OutOfFuel.
@@ -60,8 +61,36 @@ Theorem C14_typed_depth : forall n t doc E fuel rest off pk k,
   r = TFuel \/ exists i, r = TErr RecursionLimitExceeded i.
 Proof. exact typed_depth. Qed.
 
+(* typed targets: termination, no panic, depth budget restored, cursor moves forward — for every type program and input *)
+Theorem C14_typed_total : forall E t bs, from_input_typed E t bs <> TFuel.
+Proof. exact from_input_typed_no_fuel. Qed.
+Theorem C14_typed_no_panic : forall E t bs, from_input_typed E t bs <> TPanic.
+Proof. exact from_input_typed_no_panic. Qed.
+Theorem C14_typed_no_panic_any_budget : forall fuel E t s,
+  (limit_disabled (cf E) = true \/ (1 <= depth s <= 255)%N) -> de_typed fuel E t s <> TPanic.
+Proof. exact de_typed_no_panic. Qed.
+Theorem C14_typed_depth_restored : forall fuel E t s d s', de_typed fuel E t s = TOk (d, s') -> depth s' = depth s.
+Proof. exact de_typed_depth_restored. Qed.
+Theorem C14_typed_offsets : forall fuel E t s d s', de_typed fuel E t s = TOk (d, s') ->
+  exists k, rest s = firstn k (rest s) ++ rest s' /\ off s' = (off s + k)%nat /\ (k <= length (rest s))%nat.
+Proof. exact de_typed_offsets. Qed.
+Theorem C14_typed_stream : forall E t ss,
+  (limit_disabled (cf E) = true \/ (1 <= depth (ss_st ss) <= 255)%N) -> fst (stream_next_typed E t ss) <> Some TIBad.
+Proof. exact stream_next_typed_no_bad. Qed.
+
+(* every String (and object key) returned is valid UTF-8: the slice/reader sources validate, and the &str source (from_utf8_unchecked)
+   is safe on valid UTF-8 input *)
+Theorem C14_strings_utf8_slice : forall cf bs v, from_input (mkEnv RSlice TEof cf) bs = Ok v -> value_strings_utf8 v = true.
+Proof. exact from_input_slice_strings_utf8. Qed.
+Theorem C14_strings_utf8_str : forall cf bs v, utf8_valid bs = true ->
+  from_input (mkEnv RStr TEof cf) bs = Ok v -> value_strings_utf8 v = true.
+Proof. exact from_input_str_strings_utf8. Qed.
+
 Print Assumptions C14_total_value.
 Print Assumptions C14_typed_depth.
+Print Assumptions C14_strings_utf8_str.
+Print Assumptions C14_typed_total.
+Print Assumptions C14_typed_no_panic.
 Print Assumptions C14_no_panic_value.
 Print Assumptions C14_no_panic_ignored.
 Print Assumptions C14_nesting_limit.
